@@ -45,6 +45,8 @@ class Spec:
             secs = secs[::2]
         elif self.drop == "last":
             secs = secs[:-1]
+        elif isinstance(self.drop, tuple) and self.drop[0] == "omit":
+            secs = [s for i, s in enumerate(secs) if i != self.drop[1] % max(len(secs), 1)]
         return secs
 
     def describe(self):
